@@ -130,7 +130,7 @@ struct FamQuant : NoTrimReset {
   static S make(int inst, const W& w) { return MK::template make<S, A>(inst, w); }
   static T item(int64_t v);
   static void update(S& s, const W& w) { s.update(MK::template item<T>(num(w, 2))); }
-  static void merge(S& s, S& o, bool mv) { if (mv) s.merge(std::move(o)); else s.merge(const_cast<const S&>(o)); }
+  static void merge(S& s, S& o, bool mv) { if (mv) s.merge(std::move(o)); else merge_lvalue(s, o); }
   static void query(S& s, const W& w) {
     if (s.is_empty()) return;
     volatile double r = s.get_rank(MK::template item<T>(num(w, 2))); (void)r;
@@ -162,7 +162,7 @@ struct FamFiStr : NoTrimReset {
   using S = datasketches::frequent_items_sketch<std::string, uint64_t, std::hash<std::string>, std::equal_to<std::string>, A>;
   static S make(int inst, const W& w) { return S((uint8_t)num(w, 3, 3), (uint8_t)num(w, 4, 3), std::equal_to<std::string>(), A(inst)); }
   static void update(S& s, const W& w) { s.update(long_str(num(w, 2)), (uint64_t)num(w, 3, 1)); }
-  static void merge(S& s, S& o, bool mv) { if (mv) s.merge(std::move(o)); else s.merge(const_cast<const S&>(o)); }
+  static void merge(S& s, S& o, bool mv) { if (mv) s.merge(std::move(o)); else merge_lvalue(s, o); }
   static void query(S& s, const W& w) {
     volatile uint64_t e = s.get_estimate(long_str(num(w, 2))); (void)e;
     auto rows = s.get_frequent_items(datasketches::NO_FALSE_NEGATIVES); size_t n = 0; for (auto& r : rows) n += r.get_item().size(); (void)n;
@@ -207,7 +207,7 @@ struct FamEbpps : NoTrimReset {
   using S = datasketches::ebpps_sketch<Item, A>;
   static S make(int inst, const W& w) { return S((uint32_t)num(w, 3, 6), A(inst)); }
   static void update(S& s, const W& w) { s.update(Item(num(w, 2)), 1.0 + (double)(num(w, 3, 1) % 13)); }
-  static void merge(S& s, S& o, bool mv) { if (mv) s.merge(std::move(o)); else s.merge(const_cast<const S&>(o)); }
+  static void merge(S& s, S& o, bool mv) { if (mv) s.merge(std::move(o)); else merge_lvalue(s, o); }
   static void query(S& s, const W&) { int64_t x = 0; for (const auto& it : s.get_result()) x += it.value("iterate"); (void)x; }
   static std::string image(const S& s) { return str_of(s.serialize(0, ItemSerde())); }
   static S deser(const std::string& img, int inst) { return S::deserialize(img.data(), img.size(), ItemSerde(), A(inst)); }
@@ -323,7 +323,7 @@ struct FamDensity : NoTrimReset {
     for (size_t i = 0; i < p.size(); ++i) p[i] = (double)((num(w, 2) * (int64_t)(i + 3)) % 11);
     s.update(std::move(p));
   }
-  static void merge(S& s, S& o, bool mv) { if (s.get_dim() != o.get_dim()) return; if (mv) s.merge(std::move(o)); else s.merge(const_cast<const S&>(o)); }
+  static void merge(S& s, S& o, bool mv) { if (s.get_dim() != o.get_dim()) return; if (mv) s.merge(std::move(o)); else merge_lvalue(s, o); }
   static void query(S& s, const W& w) {
     if (s.is_empty()) return;
     std::vector<double> p(s.get_dim(), (double)num(w, 2)); volatile double e = s.get_estimate(p); (void)e;
